@@ -188,7 +188,7 @@ func classifyDeath(c *ev.Check, o *run.Outcome) bool {
 	return false
 }
 
-func plan(tier string, seed int64) []run.Batch {
+func planBase(tier string, seed int64) []run.Batch {
 	var bs []run.Batch
 	add := func(kind string, n, of int, variant string) {
 		for i := 0; i < of; i++ {
@@ -1874,7 +1874,7 @@ func logTail(b []byte, n int) []string {
 
 // ---------------------------------------------------------------- child
 
-func child(b run.Batch, r *ev.Result) {
+func childBase(b run.Batch, r *ev.Result) {
 	rng := rand.New(rand.NewSource(b.Seed))
 	drv.SetClock(0)
 	drv.GateRotation(true)
